@@ -4,3 +4,5 @@ package main
 
 // without cgo there is no SQLite (the 32-bit start-up walk): only the untyped failure exists
 var driverErrors = []error{errDriverInjected}
+
+var errSQLiteBusy error = errDriverInjected
